@@ -23,12 +23,6 @@ instance (b : Bytes) (p : Option Bytes) : Decidable (ListOk b p) := by
   unfold ListOk; decide_pred
 instance (s : State) (b k : Bytes) : Decidable (CreateUploadOk s b k) := by
   unfold CreateUploadOk; decide_pred
-instance (s : State) (b k : Bytes) (u : UploadRef) (n : Int) : Decidable (UploadPartOk s b k u n) := by
-  unfold UploadPartOk; decide_pred
-instance (s : State) (b k : Bytes) (u : UploadRef) : Decidable (ListPartsOk s b k u) := by
-  unfold ListPartsOk; decide_pred
-instance (s : State) (b k : Bytes) (u : UploadRef) : Decidable (AbortOk s b k u) := by
-  unfold AbortOk; decide_pred
 instance (s : State) (b k : Bytes) (id : Nat) : Decidable (CompleteSuccessOk s b k id) := by
   unfold CompleteSuccessOk; decide_pred
 instance (s : State) (b k : Bytes) (id : Nat) (pl : List (Option Int)) : Decidable (CompleteOwnerOk s b k id pl) := by
@@ -60,11 +54,11 @@ def Good (s : State) : Op → Prop
   | .listObjectsV2 b p _ _ _ => ListOk b p
   | .listObjects b p _ _ _ => ListOk b p
   | .createMultipartUpload _ b k _ => CreateUploadOk s b k
-  | .uploadPart _ b k u n _ => UploadPartOk s b k u n
+  | .uploadPart .. => True
   | .uploadPartCopy _ b k u n sb sk r => UploadPartCopyOk s b k u n sb sk r
-  | .listParts _ b k u => ListPartsOk s b k u
+  | .listParts .. => True
   | .completeMultipartUpload who b k u parts => CompleteOk s who b k u parts
-  | .abortMultipartUpload _ b k u => AbortOk s b k u
+  | .abortMultipartUpload .. => True
 
 instance (s : State) (op : Op) : Decidable (Good s op) := by
   cases op <;> (unfold Good; infer_instance)
@@ -94,12 +88,12 @@ theorem step_refines (H : Hashes) (dl : Nat) {s : State} (hi : Inv s) {op : Op} 
   | createMultipartUpload w b k md =>
     exact createUpload_refines H dl hi (who := w) (md := md) hg
   | uploadPart w b k u n c =>
-    exact uploadPart_refines H dl hi (who := w) (c := c) hg
+    exact uploadPart_refines H dl hi (who := w) (c := c)
   | uploadPartCopy w b k u n sb sk r =>
     exact uploadPartCopy_refines H dl hi (who := w) hg
-  | listParts w b k u => exact listParts_refines H dl hi (who := w) hg
+  | listParts w b k u => exact listParts_refines H dl hi (who := w)
   | completeMultipartUpload w b k u parts => exact complete_refines H dl hi hg
-  | abortMultipartUpload w b k u => exact abort_refines H dl hi (who := w) hg
+  | abortMultipartUpload w b k u => exact abort_refines H dl hi (who := w)
 
 /-- every request of the history meets `Good` in the state the backend is in when it arrives -/
 def GoodRun (H : Hashes) (dl : Nat) : State → List Op → Prop
